@@ -27,6 +27,11 @@ impl VisitableMut for Type {
         visit.visit_type_mut(self);
     }
 }
+impl VisitableMut for syn::WherePredicate {
+    fn visit_mut(&mut self, visit: &mut impl VisitMut) {
+        visit.visit_where_predicate_mut(self);
+    }
+}
 impl VisitableMut for Generics {
     fn visit_mut(&mut self, visit: &mut impl VisitMut) {
         visit.visit_generics_mut(self);
